@@ -1,2 +1,45 @@
-(* C06 driver section: not implemented yet *)
-let init () = ()
+(* C06: all-but-one PPRF model (coq/Model/Pprf.v).  All structured data travel as the byte images the
+   Rust side obtains with bytemuck; they are parsed by the model's own [*_of_bytes] functions. *)
+module M = M_c06
+module S = Proto.Std (M)
+module C = S.C
+
+let rec nat_of_int (i : int) : M.nat = if i <= 0 then M.O else M.S (nat_of_int (i - 1))
+let rec int_of_nat (n : M.nat) : int = match n with M.O -> 0 | M.S k -> 1 + int_of_nat k
+let n_instances () = M.mul M.kdepth M.ntrees
+let bits_of_string (s : string) : bool list =
+  if s = "-" then [] else List.init (String.length s) (fun i -> s.[i] = '1')
+let tt_init_of_hex (h : string) : M.n list list = M.chunks M.ntrees M.lB2 (C.bytes_of_hex h)
+let out_of (r : (M.n list list * M.pprf_msg) list) : string list =
+  [C.hex_of_bytes (M.msgs_to_bytes (List.map snd r)); C.hex_of_bytes (M.sender_seed_bytes r)]
+
+let init () =
+  (* build sid sender_keys(256*64 bytes) t_tilda_init(64*64 bytes) -> message bytes, SenderOTSeed bytes *)
+  Proto.register "c06.build" (fun args -> match args with
+    | [sid; sk; tt] ->
+      let r = M.build_pprf S.transcript (C.bytes_of_hex sid)
+          (M.sender_keys_of_bytes (n_instances ()) (C.bytes_of_hex sk)) (tt_init_of_hex tt) in
+      out_of r
+    | _ -> failwith "c06.build: arity");
+  (* eval sid choice_bits recv_keys(256*32 bytes) message -> "ok" ReceiverOTSeed bytes | "err" code *)
+  Proto.register "c06.eval" (fun args -> match args with
+    | [sid; cb; rk; msg] ->
+      let ms = M.msgs_of_bytes M.kdepth M.ntrees (C.bytes_of_hex msg) in
+      (match M.eval_pprf S.transcript (C.bytes_of_hex sid) (C.bytes_of_hex cb)
+               (M.recv_keys_of_bytes (n_instances ()) (C.bytes_of_hex rk)) ms with
+       | M.Val r -> ["ok"; C.hex_of_bytes (M.recv_seed_bytes r)]
+       | M.Err e -> ["err"; C.hex_of_n e]
+       | M.Panic p -> ["panic"; C.hex_of_n p])
+    | _ -> failwith "c06.eval: arity");
+  (* adv sid sender_keys t_tilda_init tree level side delta guessbits -> message bytes, SenderOTSeed bytes *)
+  Proto.register "c06.adv" (fun args -> match args with
+    | [sid; sk; tt; tree; level; side; delta; g] ->
+      let r = M.adv_pprf S.transcript (C.bytes_of_hex sid)
+          (M.sender_keys_of_bytes (n_instances ()) (C.bytes_of_hex sk)) (tt_init_of_hex tt)
+          (nat_of_int (int_of_string tree)) (nat_of_int (int_of_string level)) (side = "1")
+          (C.bytes_of_hex delta) (bits_of_string g) in
+      out_of r
+    | _ -> failwith "c06.adv: arity");
+  (* constants the harness compares with the real ones *)
+  Proto.register "c06.consts" (fun _ ->
+    [string_of_int (int_of_nat M.kdepth); string_of_int (int_of_nat M.ntrees); string_of_int (int_of_nat M.lB2)])
